@@ -365,6 +365,11 @@ def monitor(scn, obs):
             if ob['files'] and not dir_allows(m[0], m[1], cfg['friends'], user) and not blocked(user, 'SHARES'):
                 found.append((K_F28, f'PeerDirectoryContentsReply lists the files of a {m[0]}-only directory to {user}', {'event': e, 'files': ob['files'][:3]}))
         elif k == 'cycle':
+            before = last_holder.get('transfers', [])
+            for tb, ta in zip(before, ob['transfers']):
+                if tb[2] == 'ABORTED' and tb[3] == 'Requested' and (ta[2], ta[3]) != ('ABORTED', 'Requested'):
+                    found.append(('requested-abort-not-kept', f'an upload aborted on the user\'s request is {ta[2]}/{ta[3]} after the cycle',
+                                  {'before': list(tb), 'after': list(ta)}))
             for (u, rp, st, ar, fr) in ob['transfers']:
                 if st in ('COMPLETE', 'FAILED', 'VIRGIN'):
                     continue
@@ -391,9 +396,12 @@ def _stale_possible(scn):
 FLAGS = ['UPLOADS', 'SEARCHES', 'ALL', 'SHARES']
 
 
-def gen_cfg(rng, vocab):
+def gen_cfg(rng, vocab, favour=()):
     friends = rng.sample(USERS, rng.randrange(0, 4))
     blocked = {u: rng.choice(FLAGS) for u in USERS if rng.random() < 0.15}
+    for u in favour:            # users that hold transfers / are about to search: block them more often
+        if rng.random() < 0.4:
+            blocked[u] = rng.choice(['UPLOADS', 'ALL', 'SEARCHES', 'ALL'])
     phrases = []
     for _ in range(rng.choice([0, 0, 1, 1, 2])):
         w = rng.choice([v for v in vocab if v.lower() not in ('mp3', 'flac')] or ['x'])
@@ -444,6 +452,7 @@ def gen_scenario(rng):
             shared = [d for d in shared if ['share', ['remove', d]] not in events]
             events.append(['cycle'])
     ntr = 0
+    tusers = set()
     for _ in range(rng.randrange(6, 16)):
         r = rng.random()
         u = rng.choice(USERS)
@@ -452,13 +461,16 @@ def gen_scenario(rng):
                 else ['raw', rng.choice(['', '@@abcde\\nothing.mp3', 'x'])]
             events.append([rng.choice(['queue', 'queue', 'request']), u, spec])
             ntr += 1
+            tusers.add(u)
         elif r < 0.45:
             target = rng.choice(fl)
             events.append(['search', u, S.gen_query(rng, vocab, target)])
         elif r < 0.60:
-            events.append(['cfg', gen_cfg(rng, vocab)])
+            events.append(['cfg', gen_cfg(rng, vocab, favour=sorted(tusers) + [u])])
             if rng.random() < 0.7:
                 events.append(['cycle'])
+            if rng.random() < 0.5:
+                events.append(['search', u, S.gen_query(rng, vocab, rng.choice(fl))])
         elif r < 0.75:
             rr = rng.random()
             if shared and rr < 0.4:
@@ -480,14 +492,21 @@ def gen_scenario(rng):
                 events.append(['share', ['scan', rng.choice(shared)]])
             if rng.random() < 0.7:
                 events.append(['cycle'])
-        elif r < 0.85 and ntr:
-            st = rng.choice(['QUEUED', 'INITIALIZING', 'UPLOADING', 'INCOMPLETE', 'PAUSED', 'ABORTED', 'ABORTED', 'COMPLETE', 'FAILED'])
-            ar = rng.choice(['Requested', 'Blocked', 'File not shared']) if st == 'ABORTED' else None
+        elif r < 0.88 and ntr:
+            st = rng.choice(['QUEUED', 'INITIALIZING', 'UPLOADING', 'INCOMPLETE', 'PAUSED', 'ABORTED', 'ABORTED', 'ABORTED', 'COMPLETE', 'FAILED'])
+            ar = rng.choice(['Requested', 'Requested', 'Blocked', 'File not shared']) if st == 'ABORTED' else None
             events.append(['set', rng.randrange(0, ntr), st, ar])
-        elif r < 0.92:
+        elif r < 0.94:
             events.append(['dircontents', u, rng.choice(fl)[:-1]])
         else:
             events.append(['cycle'])
+    if ntr and rng.random() < 0.4:
+        # directed: an upload aborted on request while its user gets blocked and unblocked again
+        base = gen_cfg(rng, vocab)
+        events.append(['set', rng.randrange(0, ntr), 'ABORTED', 'Requested'])
+        events.append(['cfg', dict(base, blocked={u: rng.choice(['UPLOADS', 'ALL']) for u in USERS})])
+        events.append(['cycle'])
+        events.append(['cfg', dict(base, blocked={})])
     events.append(['cycle'])
     # the client runs a management cycle by itself shortly after every share / settings change: make it explicit
     out = []
